@@ -47,6 +47,45 @@ CHECKS['C07'] = dict(
          'not expressible at callback granularity (not claimed).',
     design='5 (C07), 3.2 (H-runtime)')
 
+CHECKS['C03'] = dict(
+    engine='h-runtime',
+    technique='Lean 4 proof (counting invariants by induction over all API histories) + event-stream correspondence + '
+              'decoding of the delivered packets of the C tracer with an independent CTF reader driven by the real metadata',
+    text='Partial. Proved for all configurations/histories/platform scripts: every tracing call that passed its enable '
+         'test ends as exactly one serialised record or exactly one counted discard (calls_recorded_or_discarded, '
+         'one_call_one_outcome), the discarded counter is the number of discards mod 2^32 (discarded_counter_exact), a '
+         'record is refused only when it cannot fit an empty packet or the back end answered full (discard_only_if). Not '
+         'proved: that the delivered bytes decode to those records in order without overlap (needs the layout round trip '
+         'and the packet position invariant; false on the pinned tree in the corners of findings F8/F9). That part is '
+         'evaluated on the implementation: every delivered packet is decoded with the parsed real metadata and compared '
+         'with the calls made.',
+    note='Trusted: Lean kernel/standard axioms; differential tie; the Python TSDL parser + CTF reader (the oracle); '
+         'known finding F9 (platform open/close ignored while tracing is disabled) suppresses only histories in which a '
+         'platform-initiated open/close ran while tracing was disabled.',
+    design='5 (C03), 3.2')
+CHECKS['C04'] = dict(
+    engine='h-runtime',
+    technique='Lean 4 proof (ghost snapshot invariant over all histories) + event-stream correspondence + field-by-field '
+              'decoding of every delivered packet of the C tracer',
+    text='Partial. Proved for all configurations/histories: at every packet closing the discarded-records snapshot is the '
+         'number of discards before it, and the sequence number is the number of packets closed before it (mod 2^32; 0 '
+         'with the feature off). Not proved: the statement about the delivered bytes (magic, UUID, stream id, sizes read '
+         'back at the reader offsets) - evaluated on the implementation on every delivered packet instead.',
+    note='Trusted: as C03. Known finding F9.',
+    design='5 (C04), 3.2')
+CHECKS['C06'] = dict(
+    engine='h-runtime',
+    technique='Lean 4 proof (accessor/ghost-counter invariant over all histories; no-op lemmas) + event-stream '
+              'correspondence + protocol oracle on the C tracer log',
+    text='Partial. Proved for all configurations/histories: is-open is exactly "the newest effective opening/closing is an '
+         'opening"; discarded and sequence accessors equal the numbers of discards and closed packets; opening an open '
+         'packet and closing a closed one are identities. Not proved: callback-protocol clauses and the is-empty clause '
+         '(need the position invariant, false in the corners of F9 and degenerate buffers) - evaluated on the '
+         'implementation log by the oracle (tracer-invoked open only on a closed packet after a not-full answer, close '
+         'only on an open packet, is-empty until the first record, buffer accessors).',
+    note='Trusted: as C03. Known finding F9.',
+    design='5 (C06), 3.2')
+
 NOT_APPLICABLE = {
 }
 
